@@ -117,8 +117,15 @@ EXC_POOL: Dict[str, Any] = {
     "EmptyLenError": EmptyLenError,
     "BadStrError": BadStrError,
     # what Context.reject() raises: an ordinary failure for the result and for the retry middleware
-    "TaskRejectedError": lambda tok, value: __import__("taskiq.exceptions", fromlist=["x"]).TaskRejectedError(),
+    "TaskRejectedError": lambda tok, value: _rejected(tok, value),
 }
+
+
+def _rejected(tok: Any, value: Any) -> BaseException:
+    from taskiq.exceptions import TaskRejectedError
+    exc = TaskRejectedError()
+    exc.args = (tok, value)  # like the other pool exceptions: identifies the message that raised it
+    return exc
 
 
 class Trace:
@@ -416,6 +423,8 @@ class RecordingBackend(AsyncResultBackend):  # type: ignore[type-arg]
             raise asyncio.CancelledError("backend")
         if tok in self.fail or "*" in self.fail:
             sc.trace.add("set_fail", d)
+            if sc.spec["backend"].get("fail_noargs"):
+                raise BackendDown  # an exception without arguments (ConnectionResetError(), TimeoutError(), ...)
             raise BackendDown("backend down")
         self.store[task_id] = result
         if self.stock is not None:
@@ -479,6 +488,7 @@ def _make_hook(sc: Scenario, i: int, hook: str, hs: Dict[str, Any]) -> Any:
     replace = hs.get("replace", False)
     rz = hs.get("raise")  # None | "all" | list of tokens
     returns_msg = hook in ("pre_send", "pre_execute")
+    slow = bool(lat) and bool(hs.get("async") or hs.get("style") in ("awaitable", "task"))
 
     def _pre(message: Any, rest: Any) -> None:
         data: Dict[str, Any] = {"mw": i, "tok": message.task_id, "marks": _markers(message)}
@@ -489,6 +499,8 @@ def _make_hook(sc: Scenario, i: int, hook: str, hs: Dict[str, Any]) -> Any:
         if hook == "on_error":
             data["exc"] = type(rest[1]).__name__
         data["labels"] = safe_json(dict(message.labels))
+        if slow:
+            data["slow"] = 1
         sc.trace.add("mw:" + hook, OWNER.get(), **data)
 
     def _post(message: Any) -> Any:
@@ -516,6 +528,8 @@ def _make_hook(sc: Scenario, i: int, hook: str, hs: Dict[str, Any]) -> Any:
                 await asyncio.sleep(0)
             elif lat:
                 await asyncio.sleep(lat)
+            if slow:
+                sc.trace.add("mw_end:" + hook, OWNER.get(), mw=i, tok=message.task_id)
             return _post(message)
         ahook.__name__ = hook
         if hs.get("style") == "awaitable":
